@@ -13,11 +13,11 @@ from harness.gen import mc as gen_mc
 from harness.pyx import drift
 
 ID = "C06"
-LEAN_TARGETS = ["ChmpyVerif.Props.C06", "ChmpyVerif.Props.C06Glue2"]
+LEAN_TARGETS = ["ChmpyVerif.Props.C06", "ChmpyVerif.Props.C06Glue2", "ChmpyVerif.Props.C06Grid"]
 T = "ChmpyVerif.Props.C06."
 THEOREMS = [T + n for n in (["leaves_ok%d" % i for i in range(8)] + ["faces_match%d" % i for i in range(8)] + ["trees%d" % i for i in range(8)]
                             + ["every_leaf_ok", "every_leaf_faces_match", "same_face_data_same_segments", "opposite_faces_glue", "two_cells_glue", "expected_keys_distinct",
-                               "vertex_inside_edge", "vertex_at_crossing", "slot_nf", "gridEdge_nf", "slot_eq_iff_same_edge", "mesh_closed"])]
+                               "vertex_inside_edge", "vertex_at_crossing", "slot_nf", "gridEdge_nf", "slot_eq_iff_same_edge", "mesh_closed", "sepOk_true", "renOk_true", "separation"])]
 TRUSTED = [
     "translator harness/gen/mc.py: decodes the base64 lookup tables, parses the_big_switch / the reference-edge chain of test_internal from the .pyx "
     "with Python's ast (after dropping the Cython declarations) and executes the switch symbolically for all 256 configurations -> 766 leaves; the "
@@ -25,8 +25,10 @@ TRUSTED = [
     "hand model Model/MC.lean of test_face, test_internal, cell.index, vertex interpolation and the face-layer slot — tied by single-cell and "
     "multi-cell correspondence with the compiled kernel (triangle sequences compared exactly, vertex parameters to 1e-6)",
     "the assembly argument itself is proved abstractly (mesh_closed: local nodup + interior-or-face + gluing across faces + 'two cells sharing a "
-    "directed edge share its face' => every directed edge and its reverse occur exactly once); NOT proved is that the concrete grid satisfies the "
-    "geometric hypothesis (two distinct grid edges common to two cells span a common face) and that neighbouring leaves see consistent face data, that the 'Impossible case 13' branches are unreachable, exact-zero corner values (index uses > 0), volume convergence, "
+    "directed edge share its face' => every directed edge and its reverse occur exactly once); the grid geometry behind it is proved too (separation: two different cells with two different grid edges in common are face "
+    "neighbours, both edges in the shared face, renamed as the tables say). NOT proved: that a chord lying in a face plane is never an interior edge of "
+    "BOTH cells sharing that face — the tables alone allow it for the tunnel tilings (7.4.2, 10.x, 12.x, 13.x); only the numeric face/interior tests "
+    "exclude it (checked on noise volumes every run: 0 of 40000 in the design experiment) — and that neighbouring leaves see consistent face data, that the 'Impossible case 13' branches are unreachable, exact-zero corner values (index uses > 0), volume convergence, "
     "and everything about the density grids of surface.py — all exercised by the oracle on the real code",
     "the prebuilt _mc_lewiner extension is a faithful compilation of the .pyx reconstructed from its .c (drift guard)",
 ]
@@ -247,7 +249,20 @@ def judge_field(seed):
     bmax = max(f[0].max(), f[-1].max(), f[:, 0].max(), f[:, -1].max(), f[:, :, 0].max(), f[:, :, -1].max())
     if bmax >= level or f.max() <= level:
         return None, 0          # the level set reaches the boundary (or is empty): outside the quantifier
-    tag = f"field seed={seed} shape={shape} spacing={tuple(round(s, 3) for s in spacing)} level={level:.4f}"
+    # the same samples in the memory layouts and float widths a caller may hold them in
+    layout = ["C-float32", "F-float32", "C-float64", "F-float64", "strided-float32"][int(nrng.integers(0, 5))]
+    f0 = f
+    if layout == "F-float32":
+        f = np.asfortranarray(f0)
+    elif layout == "C-float64":
+        f = f0.astype(np.float64)
+    elif layout == "F-float64":
+        f = np.asfortranarray(f0.astype(np.float64))
+    elif layout == "strided-float32":
+        big = np.zeros(tuple(2 * n for n in shape), np.float32)
+        big[::2, ::2, ::2] = f0
+        f = big[::2, ::2, ::2]
+    tag = f"field seed={seed} shape={shape} spacing={tuple(round(s, 3) for s in spacing)} level={level:.4f} layout={layout}"
     vols = {}
     for gd in ("descent", "ascent"):
         V, F, N, vals = marching_cubes(f, level, spacing=spacing, gradient_direction=gd)
@@ -308,6 +323,30 @@ def judge_quantised(seed):
         if bad:
             return (f"quantised field seed={seed} shape={shape} level={level} ({int((q == level).sum())} grid values equal the level exactly): "
                     f"mesh is not closed, {len(bad)} directed edges unpaired")
+    return None
+
+
+def judge_noise(seed):
+    """white-noise volumes (padded so that the level set stays inside): every cell is ambiguous territory for the case logic"""
+    from chmpy.mc._mc import _get_lookup_tables
+    from chmpy.mc._mc_lewiner import marching_cubes as _mc
+    L = _get_lookup_tables()
+    nrng = np.random.default_rng(seed)
+    for it in range(60):
+        n = int(nrng.integers(3, 6))
+        f = np.full((n + 2, n + 2, n + 2), -1.0, np.float32)
+        mode = it % 3
+        if mode == 0:
+            inner = nrng.normal(size=(n, n, n))
+        elif mode == 1:
+            inner = nrng.choice([-1, 1], size=(n, n, n)) * nrng.uniform(0.05, 1, size=(n, n, n))
+        else:
+            inner = (np.indices((n, n, n)).sum(axis=0) % 2 * 2 - 1) * nrng.uniform(0.05, 1, size=(n, n, n)) * nrng.choice([1, 1, 1, -1], size=(n, n, n))
+        f[1:-1, 1:-1, 1:-1] = inner
+        V, F, _, _ = _mc(f, 0.0, L, 1, 0)
+        bad = mesh_topology(np.asarray(F).reshape(-1, 3).tolist())
+        if bad:
+            return f"noise volume seed={seed} #{it} (inner {n}^3, mode {mode}): mesh not closed/oriented: {len(bad)} directed edges unpaired or repeated, e.g. {bad[0]}"
     return None
 
 
@@ -406,6 +445,19 @@ def judge_wrappers(seed):
         if not 0.6 < med < 1.6:
             return (f"Molecule.promolecule_density_isosurface(isovalue={iso}, separation=0.3): the median density at the vertices is {med:.3g} times "
                     f"the requested isovalue — the surface is not the requested level")
+    # a molecule moved in place after a surface was made: the next surface is around the atoms where they are now
+    m2 = Molecule.from_arrays(np.array(n), np.array(p))
+    m2.promolecule_density_isosurface(separation=0.5)
+    for step, move in enumerate(((7.0, -5.0, 3.0), (-2.5, 0.0, 11.0))):
+        m2.translate(np.array(move))
+        if step == 1:
+            m2.rotate(np.array([[0.0, -1.0, 0.0], [1.0, 0.0, 0.0], [0.0, 0.0, 1.0]]), origin=(0, 0, 0))
+        mesh = m2.promolecule_density_isosurface(separation=0.5)
+        V, F = np.asarray(mesh.vertices, float), np.asarray(mesh.faces)
+        for a in np.asarray(m2.positions):
+            if abs(abs(winding_number(V, F, a)) - 1) > 1e-3:
+                return (f"Molecule.promolecule_density_isosurface after moving the molecule in place (step {step + 1}): atom at {a.tolist()} is not "
+                        f"enclosed by the new surface — the surface is not in the molecule's current Cartesian frame")
     path = os.path.join(os.path.dirname(__import__("chmpy").__file__), "tests", "test_files", "acetic_acid.cif")
     c = Crystal.load(path)
     try:
@@ -435,6 +487,8 @@ def plan(ctx, budget):
         yield ("field", rng.randrange(1 << 30))
     for _ in range(2 if budget == "quick" else 10):
         yield ("convergence", rng.randrange(1 << 30))
+    for _ in range(12 if budget == "quick" else 200):
+        yield ("noise", rng.randrange(1 << 30))
     yield ("quantised", 15)            # the listed finding's own input
     for _ in range(12 if budget == "quick" else 150):
         yield ("quantised", rng.randrange(1 << 30))
@@ -451,6 +505,8 @@ def run_case(c):
         return judge_convergence(seed), 100
     if kind == "quantised":
         return judge_quantised(seed), 100
+    if kind == "noise":
+        return judge_noise(seed), 100
     if kind.startswith("promolecule:"):
         return judge_promolecule(kind.split(":")[1], seed), 100
     return judge_wrappers(seed), 100
